@@ -205,9 +205,10 @@ class Ctx:
         ev = dict(property_id=self.pid, tier=self.tier, seed=int(self.seed), level=self.level,
                   coverage=jsonable(cov), assumptions=self.assumptions, wall_s=round(wall, 2),
                   violations=len(self.violations))
-        EVID.mkdir(exist_ok=True)
+        evdir = EVID if self.pid.startswith("C") else ROOT / "evidence_growth"      # growth checks (G..) are not listed properties
+        evdir.mkdir(exist_ok=True)
         if self.only_key is None:
-            with open(EVID / f"{self.pid}.json", "w") as f:
+            with open(evdir / f"{self.pid}.json", "w") as f:
                 json.dump(ev, f, indent=1)
         shutil.rmtree(self.scratch, ignore_errors=True)
         if len(self.violations) > 25:
